@@ -38,7 +38,11 @@ func (r *readOnlyFile) Stat() (hackpadfs.FileInfo, error) {
 }
 
 func (r *readOnlyFile) Truncate(size int64) error {
-	return r.file.Truncate(size)
+	if r.file.fileData == nil {
+		return hackpadfs.ErrClosed
+	}
+	// like os.File, a file opened read-only can not be truncated
+	return &hackpadfs.PathError{Op: "truncate", Path: r.file.path, Err: hackpadfs.ErrInvalid}
 }
 
 func (r *readOnlyFile) ReadDir(n int) ([]hackpadfs.DirEntry, error) {
